@@ -1,12 +1,13 @@
 (* Model of inside_group (src/find/matchers/regex.rs): the text of a -regex pattern as it is written inside the group it is
    wrapped in to anchor its end - back-references renumbered (the wrapping group is the first one), an unmatched ")" of a POSIX
-   extended pattern escaped (it would close the wrapping group), [:punct:] and [:digit:] spelled out.  One pass over the
+   extended pattern escaped (it would close the wrapping group), [:punct:] and [:digit:] spelled out (where the syntax has
+   character classes), a newline of a grep pattern written as the alternation it is.  One pass over the
    characters; the nested loops of the code are the states.  Definitions only. *)
 From Coq Require Import List Arith Bool.
 Import ListNotations.
 
 Definition c_bs := 92.  Definition c_lb := 91.  Definition c_rb := 93.  Definition c_lp := 40.  Definition c_rp := 41.
-Definition c_caret := 94.  Definition c_colon := 58.
+Definition c_caret := 94.  Definition c_colon := 58.  Definition c_nl := 10.  Definition c_bar := 124.
 Definition is_digit (c : nat) : bool := (48 <=? c) && (c <=? 57).
 Definition is_ref (c : nat) : bool := (49 <=? c) && (c <=? 57).              (* '1'..'9' *)
 (* the decimal text of (digit + 1) for a digit character '1'..'9' *)
@@ -28,40 +29,44 @@ Inductive wst :=
 | WB (may_caret may_rb : bool)   (* inside a bracket expression; at its start "^" and then "]" are members *)
 | WC (acc : list nat).           (* inside "[:" ... : the text so far, ":" first *)
 
-Fixpoint wrap (ext : bool) (q : wst) (depth : nat) (s : list nat) : list nat :=
+Fixpoint wrap (ext cls nl : bool) (q : wst) (depth : nat) (s : list nat) : list nat :=
   match s with
   | [] => match q with WC acc => c_lb :: acc | _ => [] end
   | c :: s' =>
     match q with
     | WT ar =>
-        if ar && is_digit c then [c_lb; c; c_rb] ++ wrap ext (WT false) depth s'   (* a digit after a back-reference stays a character *)
-        else if c =? c_bs then c :: wrap ext WE depth s'
-        else if c =? c_lb then c :: wrap ext (WB true true) depth s'
-        else if ext && (c =? c_lp) then c :: wrap ext (WT false) (S depth) s'
+        if ar && is_digit c then [c_lb; c; c_rb] ++ wrap ext cls nl (WT false) depth s'   (* a digit after a back-reference stays a character *)
+        else if c =? c_bs then c :: wrap ext cls nl WE depth s'
+        else if c =? c_lb then c :: wrap ext cls nl (WB true true) depth s'
+        else if ext && (c =? c_lp) then c :: wrap ext cls nl (WT false) (S depth) s'
         else if ext && (c =? c_rp) then
           match depth with
-          | S d => c :: wrap ext (WT false) d s'
-          | 0 => c_bs :: c :: wrap ext (WT false) 0 s'
+          | S d => c :: wrap ext cls nl (WT false) d s'
+          | 0 => c_bs :: c :: wrap ext cls nl (WT false) 0 s'
           end
-        else c :: wrap ext (WT false) depth s'
-    | WE => if is_ref c then bump_ref c ++ wrap ext (WT true) depth s' else c :: wrap ext (WT false) depth s'
+        else if nl && (c =? c_nl) then c_bs :: c_bar :: wrap ext cls nl (WT false) depth s'   (* grep: a newline separates alternatives *)
+        else c :: wrap ext cls nl (WT false) depth s'
+    | WE => if is_ref c then bump_ref c ++ wrap ext cls nl (WT true) depth s' else c :: wrap ext cls nl (WT false) depth s'
     | WB mc mr =>
-        if mc && (c =? c_caret) then c :: wrap ext (WB false true) depth s'
-        else if mr && (c =? c_rb) then c :: wrap ext (WB false false) depth s'
-        else if c =? c_rb then c :: wrap ext (WT false) depth s'
+        if mc && (c =? c_caret) then c :: wrap ext cls nl (WB false true) depth s'
+        else if mr && (c =? c_rb) then c :: wrap ext cls nl (WB false false) depth s'
+        else if c =? c_rb then c :: wrap ext cls nl (WT false) depth s'
         else if c =? c_lb then
-          match s' with
-          | d :: s'' => if d =? c_colon then wrap ext (WC [d]) depth s'' else c :: wrap ext (WB false false) depth s'
-          | [] => c :: wrap ext (WB false false) depth s'
-          end
-        else c :: wrap ext (WB false false) depth s'
+          if cls then
+            match s' with
+            | d :: s'' => if d =? c_colon then wrap ext cls nl (WC [d]) depth s'' else c :: wrap ext cls nl (WB false false) depth s'
+            | [] => c :: wrap ext cls nl (WB false false) depth s'
+            end
+          else c :: wrap ext cls nl (WB false false) depth s'      (* emacs: no character classes, "[" is a member *)
+        else c :: wrap ext cls nl (WB false false) depth s'
     | WC acc =>
-        if c =? c_rb then emit_class (acc ++ [c]) ++ wrap ext (WB false false) depth s'
-        else wrap ext (WC (acc ++ [c])) depth s'
+        if c =? c_rb then emit_class (acc ++ [c]) ++ wrap ext cls nl (WB false false) depth s'
+        else wrap ext cls nl (WC (acc ++ [c])) depth s'
     end
   end.
 
-Definition inside_group (ext : bool) (pattern : list nat) : list nat := wrap ext (WT false) 0 pattern.
+(* ext: posix-extended; cls: the syntax has character classes (all but emacs); nl: a newline is alternation (grep) *)
+Definition inside_group (ext cls nl : bool) (pattern : list nat) : list nat := wrap ext cls nl (WT false) 0 pattern.
 
 (* ---- how the text is read back: where groups open and close (POSIX extended).  A backslash takes the next character with it;
    a bracket expression runs from "[" (then "^" and "]" as members) to the next "]", a "[:" inside it to the next "]".
